@@ -13,11 +13,14 @@ from .common import chunks, udim
 
 RULE = ("one evaluation = one real call of a commensurability-requiring operation (a ufunc of the add/compare/min-max/"
         "hypot/remainder/arctan2/nextafter/heaviside/divmod kind in call, operator, reflected, in-place, out=, outer, "
-        "reduce(initial=), out=+where= form; a merging array function unyt implements; __setitem__; a conversion route) on "
+        "reduce(initial=), out=+where=, at form; a merging array function unyt implements, through every call door NumPy offers for it - for clipping: "
+        "np.clip, its out= / in-place forms, the ndarray method positional / keyword / out= / in place / one-sided, and the clip ufunc object with and "
+        "without out=; for reduce(initial=): the ufunc method, ndarray.max/min/sum and np.max/min/amax/sum; __setitem__; a conversion route) on "
         "operands whose reference dimension vectors differ, judged must-raise + operands-unchanged (== / != : all-False / "
         "all-True or raise), and only counted when the same template on all-dimensionless operands returns (otherwise the "
         "refusal is vacuous and only noted).  distinct = (operation/form, kind+shape of each operand, dtype) cells of the "
-        "kind matrix plus (operation/form, unit of A, unit of B) cells of the dimension-pair sweep (default-registry units, offset scales, "
+        "kind matrix (operand kinds include every spelling of a sequence of quantities: flat list, tuple, nested list, list of tuples; of A's unit, "
+        "of another dimension, mixed, dimensionless) plus (operation/form, unit of A, unit of B) cells of the dimension-pair sweep (default-registry units, offset scales, "
         "random compound units, and user symbols of custom registries whose dimension differs between registries or was redefined, judged "
         "after the identically spelled commensurable operation ran; and pairs of the SAME spelling whose Unit objects were taken on either side "
         "of an edit of their registry that changed the symbol's dimension, or from two registries defining the symbol differently: (kind of edit, "
@@ -49,7 +52,7 @@ ASSUMPTIONS = (
     "are a documented cross-dimension route (.to('statC') from C) that __setitem__, list coercion and clip use internally: every operation on such a "
     "pair is noted, not judged",
     "ndarray methods unyt does not override (fill, put, searchsorted, flat[...]=) and NumPy functions unyt has no implementation for "
-    "(append, setxor1d, digitize, r_) are outside the quantifier: outcome noted as observed:<name>, not judged",
+    "(append, setxor1d, digitize, r_, full_like) are outside the quantifier: outcome noted as observed:<name>, not judged",
     "isclose/allclose belong to C19; logical_and/or/xor, copysign, logaddexp are not commensurability-requiring: observed only",
     "user-defined symbols of a UnitRegistry have the dimension their definer passed to registry.add (reference vector written next to the "
     "unyt.dimensions name in REG_DIMS); string targets such as .to('m') are resolved by unyt in the source's registry, so the cross-registry "
@@ -64,6 +67,18 @@ ASSUMPTIONS = (
     "serialisation property's subject and is not driven as a snapshot operand here",
     "pairs of quantities spelled alike get the operand class '<class>/same-spelling' in their mechanism keys (driver: contexts built that way; passive tap: "
     "equal unit expressions with different dimension labels), because a dimension test replaced by a comparison of spellings fails only there",
+    "a tuple, a nested list and a list of tuples of quantities are spellings of 'list of quantities' (the quantifier's operand kind): they are judged "
+    "like the flat list and share its operand classes quantity-list / dimensionless-quantity-list in the mechanism keys; binary ufuncs given a NESTED "
+    "sequence are keyed ufunc(nested-quantity-sequence) without ufunc name/form (the sequence coercion in front of every ufunc is one mechanism)",
+    "call doors: the ndarray method a.clip(lo, hi) and the clip ufunc object are doors to the same merge as np.clip and are judged like it (DESIGN C01-W "
+    "'clip (ufunc and method)'); one-sided a.clip(lo) / a.clip(max=hi) end in maximum / minimum and are judged as clip doors; a door that refuses "
+    "all-dimensionless operands as well (on this tree: the two-sided method and the ufunc object, RuntimeError 'clip ufunc with 3 inputs'; ufunc.at) is "
+    "driven but vacuous: listed in call_doors_wholly_vacuous, never 'held' evidence; the run is INCONCLUSIVE if a door was not driven at all, if no "
+    "clip door / no reduce(initial=) door decided anything, or if a spelling was judged 0 times",
+    "ndarray.max/min/sum(initial=X) and np.max/min/amax/sum(a, initial=X) are doors to ufunc.reduce(initial=) (inside the quantifier) and are judged; a bare "
+    "non-zero number as initial= takes the data's unit (DESIGN 4.12): noted",
+    "the passive tap also judges every 3-input dispatch of the clip ufunc: dimensions are read off unyt operands and off (nested) list/tuple operands "
+    "holding unyt objects; bare operands carry no dimension there",
     "mechanism keys carry an operand class (dimensional / dimensionless-quantity (scale 1) / scaled-dimensionless-quantity (percent...) / bare-number / "
     "bare-array / quantity-list / dimensionless-quantity-list); handlers that forward a keyword operand to NumPy without looking at it "
     "(pad, diff, ediff1d, interp left/right, histogram bins/range) use one class 'quantity' for every kind of quantity; divmod, "
@@ -106,6 +121,8 @@ FORMCLASS = {"call": "call", "operator": "call", "out-q": "out", "out-bare": "ou
              "inplace-op": "out", "outer": "outer", "reduce-initial": "reduce(initial=)", "out+where": "out+where",
              "at": "at"}
 REDUCE_UFUNCS = ["add", "maximum", "minimum", "fmax", "fmin", "hypot"]
+AT_KINDS = [("diff", "0"), ("diff", "1"), ("dimless", "0"), ("percent", "0"), ("zeroq", "0"), ("barray", "1"), ("qlist-diff", "1"), ("qtuple-diff", "1"),
+            ("qlist-dl", "1"), ("same", "0")]
 WHERE_UFUNCS = ["add", "maximum", "hypot"]
 
 
@@ -253,6 +270,9 @@ def batches(tier, seed):
             b.append((f"arrayfn/{i}", ("arrayfn", {"ctxs": cc, "dtypes": ["f8"] if i else ["f8", "i8"], "tier": tier})))
         for i, pc in enumerate(chunks(pairs, 4)):
             b.append((f"convert/{i}", ("convert", {"pairs": [_ctx_tuple(*p) for p in pc], "tier": tier})))
+        for i, ufc in enumerate(chunks(uf_all, 5)):
+            b.append((f"ufspell/{i}", ("ufmatrix", {"ufuncs": ufc, "ctxs": ctxs[4:8], "dtypes": ["f8"], "tier": tier, "kinds": SPELL_UKINDS + SPELL_KINDS,
+                                                    "kpairs": SPELL_KPAIRS, "shape_pairs": SHAPE_PAIRS_T, "unary": False})))
         b.append(("offsets", ("offsets", {"pairs": OFFSET_UNITS, "others": ["m", "s", "J"], "tier": tier})))
         rd = ["length", "time", "mass", "energy", "dimensionless"]
         cases = [(x, y, sc) for sc in ("two-registries", "redefined", "cross") for x in rd for y in rd if x != y and not (sc == "cross" and "dimensionless" in (x, y))]
@@ -273,6 +293,11 @@ def batches(tier, seed):
             b.append((f"arrayfn/{i}", ("arrayfn", {"ctxs": cc, "dtypes": ["f8", "i8", "f4"] if i % 2 == 0 else ["f8", "c16"], "tier": tier})))
         for i, pc in enumerate(chunks(pairs, 24)):
             b.append((f"convert/{i}", ("convert", {"pairs": [_ctx_tuple(*p) for p in pc], "tier": tier})))
+        for i, ufc in enumerate(chunks(uf_all, 2)):
+            for j, cc in enumerate(chunks(ctxs[:32], 16)):
+                b.append((f"ufspell/{i}.{j}", ("ufmatrix", {"ufuncs": ufc, "ctxs": cc, "dtypes": ["f8"] if j else ["f8", "i8"], "tier": tier,
+                                                            "kinds": SPELL_UKINDS + SPELL_KINDS, "kpairs": SPELL_KPAIRS, "shape_pairs": SHAPE_PAIRS_T,
+                                                            "unary": False})))
         b.append(("offsets", ("offsets", {"pairs": OFFSET_UNITS, "others": [u[0] for u in us[:12]], "tier": tier})))
         rd = list(REG_DIMS)
         cases = [(x, y, sc) for sc in ("two-registries", "redefined", "cross") for x in rd for y in rd if x != y and not (sc == "cross" and "dimensionless" in (x, y))]
@@ -312,6 +337,17 @@ def vals(role, shp, dt):
 QKINDS = ("same", "samedim", "diff", "dimless", "percent")
 KINDS9 = ["same", "samedim", "diff", "dimless", "percent", "bscalar", "barray", "zero", "qlist"]
 EXTRA_KINDS = ["zeroq", "barray-z", "qlist-diff", "qlist-mixed", "qlist-dl"]
+# operand SPELLINGS of a sequence of quantities other than a flat list: tuple (1-d) and nested list / list of tuples (2-d)
+SPELL_KINDS = ["qtuple", "qtuple-diff", "qtuple-dl", "qnest", "qnest-diff", "qnest-dl", "qnest-mixed"]
+_SEQ = {"qlist": ("1", list, ("same",) * 3), "qlist-diff": ("1", list, ("diff",) * 3), "qlist-mixed": ("1", list, ("same", "diff", "same")),
+        "qlist-dl": ("1", list, ("dimless",) * 3), "qtuple": ("1", tuple, ("same",) * 3), "qtuple-diff": ("1", tuple, ("diff",) * 3),
+        "qtuple-dl": ("1", tuple, ("dimless",) * 3), "qnest": ("2", list, ("same",) * 3), "qnest-diff": ("2", list, ("diff",) * 3),
+        "qnest-dl": ("2", tuple, ("dimless",) * 3), "qnest-mixed": ("2", tuple, ("same", "same", "diff"))}
+
+
+NEST_KINDS = [k for k, v in _SEQ.items() if v[0] == "2"]
+SPELL_UKINDS = ["same", "samedim", "diff", "dimless", "percent", "zeroq"]
+SPELL_KPAIRS = [[u, k] for u in SPELL_UKINDS for k in SPELL_KINDS] + [[k, u] for u in SPELL_UKINDS for k in SPELL_KINDS]
 
 
 class Ctx:
@@ -408,13 +444,15 @@ def mk(ctx, kind, shp, role, dt):
         if shp == "1":
             return (np.zeros(3, dtype=dt) if role == "x" else [0, 0.0, 0]), ZERO, "b0"
         return np.zeros((2, 3), dtype=dt), ZERO, "b0"
-    if kind in ("qlist", "qlist-diff", "qlist-mixed", "qlist-dl"):
-        if shp != "1":
+    if kind in _SEQ:
+        sshp, typ, ks = _SEQ[kind]
+        if shp != sshp:
             return None
-        v = vals(role, "1", dt)
-        un = ctx.unyt
-        ks = {"qlist": ("same",) * 3, "qlist-diff": ("diff",) * 3, "qlist-mixed": ("same", "diff", "same"), "qlist-dl": ("dimless",) * 3}[kind]
-        o = [ctx.q(k, np.array(x)) for x, k in zip(v, ks)]
+        v = vals(role, shp, dt)
+        if shp == "1":
+            o = typ(ctx.q(k, np.array(x)) for x, k in zip(v, ks))
+        else:       # nested list (rows are lists) or list of tuples
+            o = [typ(ctx.q(k, np.array(x)) for x, k in zip(row, ks)) for row in v]
         ds = {ctx.d[k] for k in ks}
         d = ds.pop() if len(ds) == 1 else None
         return o, d, ("qld" if d == ZERO else "ql")
@@ -435,9 +473,9 @@ def kinfo(ctx, kind, shp):
         return (ZERO, "ba", False) if shp != "0" else None
     if kind == "zero":
         return ZERO, "b0", False
-    if shp != "1":
+    sshp, _, ks = _SEQ[kind]
+    if shp != sshp:
         return None
-    ks = {"qlist": ("same",), "qlist-diff": ("diff",), "qlist-mixed": ("same", "diff"), "qlist-dl": ("dimless",)}[kind]
     ds = {ctx.d[k] for k in ks}
     d = ds.pop() if len(ds) == 1 else None
     return d, ("qld" if d == ZERO else "ql"), False
@@ -501,6 +539,7 @@ class Judge:
         self.twin = twin_of(unyt)
         self.twin_cache = {}
         self.scopes = ()     # names of the history sub-monitors the current cases belong to (each judged case is counted under each)
+        self.tags = ()       # door / operand-spelling sub-monitors the current case belongs to (judged and vacuous cases are counted under each)
 
     def run(self, thunk):
         try:
@@ -535,6 +574,8 @@ class Judge:
         if mode in ("must-raise", "eq") and not self.alive(twin_key, build):
             rec.note(f"vacuous:{op}/{form}:{self.twin_cache[twin_key][1]}")
             rec.count("vacuous-skipped")
+            for t_ in self.tags:
+                rec.count("vacuous-tag:" + t_)
             return
         before = [vsnap(o) for o in operands]
         r, e = self.run(thunk)
@@ -554,6 +595,8 @@ class Judge:
         rec.count(f"judged:{sub}")
         for sc in self.scopes:
             rec.count("judged-scope:" + sc)
+        for t_ in self.tags:
+            rec.count("judged-tag:" + t_)
         if e is not None:
             rec.count(f"exc:{type(e).__name__}")
             after = [vsnap(o) for o in operands]
@@ -686,7 +729,7 @@ def drive_ufmatrix(J, payload):
     un, rec = J.unyt, J.rec
     tier = payload["tier"]
     ctxs = [as_ctx(un, c) for c in payload["ctxs"]]
-    kinds = kinds_for(tier)
+    kinds = payload.get("kinds") or kinds_for(tier)
     shape_pairs = SHAPE_PAIRS_Q if tier == "quick" else SHAPE_PAIRS_T
     shape_pairs = [tuple(x) for x in payload.get("shape_pairs", shape_pairs)]
     kpairs = payload.get("kpairs")      # optional restriction of the ordered operand-kind pairs
@@ -712,6 +755,9 @@ def drive_ufmatrix(J, payload):
                         # a zero-filled quantity meeting an operand that is not a unyt object takes the zero-exception branch (one mechanism)
                         zq = (k1 == "zeroq" and not i2[2]) or (k2 == "zeroq" and not i1[2])
                         keybase = "divmod" if name == "divmod" else ("ufunc(zero-filled-quantity,non-unyt-operand)" if zq else None)
+                        if keybase is None and (k1 in NEST_KINDS or k2 in NEST_KINDS):
+                            # binary ufuncs coerce a sequence operand by looking at its top-level elements only (one mechanism for every ufunc / form)
+                            keybase = "ufunc(nested-quantity-sequence)"
                         for form in BIN_FORMS:
                             b = ufunc_builder(un, name, form, k1, s1, k2, s2, dt)
                             if b is None:
@@ -725,6 +771,7 @@ def drive_ufmatrix(J, payload):
                             tk = (name, form, k1, s1, k2, s2, dt)
                             cell = (k1 + s1, k2 + s2, dt)
                             callstr = f"np.{name} <{form}>({k1}{SHAPES[s1]}, {k2}{SHAPES[s2]}, {dt})"
+                            J.tags = tuple("spelling:" + k for k in (k1, k2) if k in SPELL_KINDS)
                             for ctx in ctxs:
                                 a1 = kinfo(ctx, k1, s1)
                                 a2 = kinfo(ctx, k2, s2)
@@ -733,6 +780,7 @@ def drive_ufmatrix(J, payload):
                                              eq_want=(name == "not_equal"), free_reason=why, keybase=keybase)
                                 if mode == "eq" and shp is not None and tuple(shp) != tuple(bshapes[(s1, s2)]):
                                     rec.note(f"eq-shape-not-broadcast:{name}")
+                            J.tags = ()
         # single-operand forms: reduce / accumulate controls, reduce(initial=) and out=+where=
         if payload.get("unary", True):
             drive_unary_forms(J, name, ctxs, payload["dtypes"])
@@ -754,13 +802,18 @@ def drive_unary_forms(J, name, ctxs, dtypes):
                     J.case("ufunc", name, meth, "control", build, ctx, (), "", None, f"np.{name}.{meth}(P)")
 
             # ufunc.at always needs three inputs
-            def build_at(c):
-                p = mk(c, "same", "1", "x", dt)[0]
-                y = mk(c, "diff", "0", "y", dt)[0]
-                return (lambda: uf.at(p, [0, 2], y)), [p, y]
-            if fam == "arith":
-                J.case("ufunc", name, "at", "must-raise", build_at, ctx, ("same1", "diff0", dt), "dimensional", (name, "at", dt),
-                       f"np.{name}.at(P, [0, 2], X)")
+            for (k, s) in AT_KINDS:
+                def build_at(c, k=k, s=s):
+                    p = mk(c, "same", "1", "x", dt)[0]
+                    y = mk(c, k, s, "y", dt)[0]
+                    return (lambda: uf.at(p, [0, 2] if s == "0" else [0, 2, 1], y)), [p, y]
+                if fam == "arith":
+                    a1, a2 = kinfo(ctx, "same", "1"), kinfo(ctx, k, s)
+                    mode, why = pair_mode(fam, a1, a2)
+                    J.tags = ("door:ufunc.at",)
+                    J.case("ufunc", name, "at", mode, build_at, ctx, ("same1", k + s, dt), opclass(a1[1], a2[1]), (name, "at", k, s, dt),
+                           f"np.{name}.at(P, idx, X={k}{SHAPES[s]})", free_reason=why)
+                    J.tags = ()
     if name in REDUCE_UFUNCS:
         for dt in dtypes:
             for k in ("same", "samedim", "diff", "dimless", "percent", "zeroq", "bscalar", "zero"):
@@ -889,6 +942,47 @@ def _ret_P(fn):
     return g
 
 
+try:
+    from numpy._core.umath import clip as CLIP_UFUNC
+except ImportError:     # NumPy 1.x
+    from numpy.core.umath import clip as CLIP_UFUNC
+# (door, mechanism-key operation, two-sided?, f(a, lo, hi, buf))
+CLIP_DOORS = [
+    ("fn", "clip", True, lambda a, lo, hi, b: np.clip(a, lo, hi)),
+    ("fn-out", "clip/out", True, lambda a, lo, hi, b: np.clip(a, lo, hi, out=b)),
+    ("fn-inplace", "clip/out", True, lambda a, lo, hi, b: np.clip(a, lo, hi, out=a)),
+    ("method", "clip/method", True, lambda a, lo, hi, b: a.clip(lo, hi)),
+    ("method-kw", "clip/method", True, lambda a, lo, hi, b: a.clip(min=lo, max=hi)),
+    ("method-out", "clip/method-out", True, lambda a, lo, hi, b: a.clip(lo, hi, out=b)),
+    ("method-inplace", "clip/method-out", True, lambda a, lo, hi, b: a.clip(lo, hi, out=a)),
+    ("ufunc", "clip/ufunc", True, lambda a, lo, hi, b: CLIP_UFUNC(a, lo, hi)),
+    ("ufunc-out", "clip/ufunc-out", True, lambda a, lo, hi, b: CLIP_UFUNC(a, lo, hi, out=b)),
+    ("ufunc-inplace", "clip/ufunc-out", True, lambda a, lo, hi, b: CLIP_UFUNC(a, lo, hi, out=a)),
+    ("method-min-only", "clip/method-one-sided", False, lambda a, lo, hi, b: a.clip(lo)),
+    ("method-min-only-kw", "clip/method-one-sided", False, lambda a, lo, hi, b: a.clip(min=lo)),
+    ("method-max-only", "clip/method-one-sided", False, lambda a, lo, hi, b: a.clip(max=lo)),
+    ("method-min-only-out", "clip/method-one-sided-out", False, lambda a, lo, hi, b: a.clip(lo, out=b)),
+    ("method-max-only-inplace", "clip/method-one-sided-out", False, lambda a, lo, hi, b: a.clip(None, lo, out=a)),
+]
+CLIP_POS = [("X,hi", lambda e: (e.X, e.hi)), ("lo,X", lambda e: (e.Pq, e.X2)), ("X,X", lambda e: (e.X, e.X2))]
+REDUCE_DOORS = [
+    ("method.max", lambda e: e.P.max(initial=e.X)), ("method.min", lambda e: e.P.min(initial=e.X)), ("method.sum", lambda e: e.P.sum(initial=e.X)),
+    ("method.max(2d,axis)", lambda e: e.M.max(axis=0, initial=e.X)), ("method.min(where=)", lambda e: e.P.min(initial=e.X, where=e.mask)),
+    ("function.max", lambda e: np.max(e.P, initial=e.X)), ("function.min", lambda e: np.min(e.P, initial=e.X)),
+    ("function.amax", lambda e: np.amax(e.P, initial=e.X)), ("function.sum", lambda e: np.sum(e.P, initial=e.X)),
+    ("function.sum(2d,axis)", lambda e: np.sum(e.M, axis=1, initial=e.X)),
+]
+
+
+def _clip_call(f, sel, xs):
+    def g(e):
+        a = e.M if xs == "2" else e.P
+        lo, hi = sel(e)
+        r = f(a, lo, hi, e.buf23 if xs == "2" else e.buf3)
+        return r
+    return g
+
+
 def _templates():
     T = []
 
@@ -983,6 +1077,18 @@ def _templates():
     t("clip/min=,max=", "0", lambda e: np.clip(e.P, min=e.X, max=e.hi), "num_ok", key="clip/kw")
     t("clip/method", "0", lambda e: e.P.clip(e.X, e.hi), "num_ok", key="clip/method")
     t("clip/ufunc", "0", lambda e: np._core.umath.clip(e.P, e.X, e.hi), "num_ok", key="clip/ufunc")
+    # ---- every call door of clipping (function, out=, ndarray method positional / keyword / out= / in place, the clip ufunc object, one-sided
+    # method forms that end in maximum / minimum) x position of the foreign bound x scalar / 1-d / 2-d bounds (the kind loop supplies the spelling)
+    for (door, key, two, f) in CLIP_DOORS:
+        for (pos, sel) in (CLIP_POS if two else CLIP_POS[:1]):
+            for xs in ("0", "1", "2"):
+                if xs == "2" and pos != "X,hi":
+                    continue
+                t(f"clip/{door}/({'M' if xs == '2' else 'P'},{pos}){xs}", xs, _clip_call(f, sel, xs), *((("num_ok",) if xs == "0" else ()) + ("door:clip:" + door,)),
+                  key=key)
+    # ---- ufunc.reduce(initial=) through its other doors: the ndarray method and the NumPy function that forward to it
+    for (door, f) in REDUCE_DOORS:
+        t(f"reduce-initial/{door}", "0", f, "num_ok", "door:reduce-initial:" + door.split("(")[0], key="reduce(initial=)/" + door.split(".")[0])
     t("pad/constant_values=X0", "0", lambda e: np.pad(e.P, 1, constant_values=e.X), "num_ok", "kwfill", key="pad/fill-values")
     t("pad/constant_values=(X0,X0)", "0", lambda e: np.pad(e.P, 1, constant_values=(e.X, e.X2)), "num_ok", "kwfill", key="pad/fill-values")
     t("pad/end_values=X0", "0", lambda e: np.pad(e.P, 1, mode="linear_ramp", end_values=e.X), "num_ok", "kwfill", key="pad/fill-values")
@@ -1029,8 +1135,6 @@ def _templates():
     t("observe.setxor1d", "1", lambda e: np.setxor1d(e.P, e.X), "observe")
     t("observe.digitize", "1", lambda e: np.digitize(e.P, e.X), "observe")
     t("observe.r_", "1", lambda e: np.r_[e.P, e.X], "observe")
-    t("observe.max(initial=)", "0", lambda e: np.max(e.P, initial=e.X), "observe")
-    t("observe.sum(initial=)", "0", lambda e: np.sum(e.P, initial=e.X), "observe")
     t("observe.method.fill", "0", _ret_P(lambda e: e.P.fill(e.X)), "observe")
     t("observe.method.put", "0", _ret_P(lambda e: e.P.put([0], e.X)), "observe")
     t("observe.method.searchsorted", "0", lambda e: e.P.searchsorted(e.X), "observe")
@@ -1053,7 +1157,7 @@ NOT_MERGING = {"apply_over_axes", "around", "array2string", "array_repr", "convo
                "asfarray", "isclose", "allclose"}
 
 AF_KINDS = ["same", "samedim", "diff", "dimless", "percent", "zeroq", "bscalar", "barray", "barray-z", "zero", "qlist", "qlist-diff",
-            "qlist-mixed", "qlist-dl"]
+            "qlist-mixed", "qlist-dl"] + SPELL_KINDS
 
 
 def af_mode(dX, cX, dA, flags):
@@ -1097,8 +1201,10 @@ def drive_arrayfn(J, payload, only=None):
                     after_ok = None
                     if "overwrite" in flags and mode == "must-raise" and cX in ("q", "dl", "dlp", "ql", "qld") and dX is not None:
                         after_ok = (lambda ops, r, dX=dX: hasattr(ops[0], "units") and udim(ops[0].units) == dX)
+                    J.tags = tuple(f for f in flags if f.startswith("door:")) + (("spelling:" + kind,) if kind in SPELL_KINDS else ())
                     J.case(sub, name, "call", mode, build, ctx, (kind + xshp, dt) + ctx.celltag(), cls, (name, kind, dt),
                            f"{name} with X={kind}{SHAPES[xshp]} ({dt})", eq_want=False, after_ok=after_ok, free_reason=why, keyop=keyop)
+                    J.tags = ()
 
 
 # ------------------------------------------------------------------ conversions
@@ -1510,8 +1616,16 @@ def extra(tier, seed, results):
                     + ["stale/operand:" + d for d in STALE_DERIVE] + ["stale/order:" + o for o in STALE_ORDERS])
     stale = {k: counters.get("judged-scope:" + k, 0) for k in stale_scopes}
     stale_eq = {k: counters.get("eq-constant-scope:" + k, 0) for k in stale_scopes}
+    door_names = sorted({f[5:] for t in TEMPLATES for f in t[3] if f.startswith("door:")} | {"ufunc.at"})
+    doors = {d: {"judged": counters.get("judged-tag:door:" + d, 0), "vacuous": counters.get("vacuous-tag:door:" + d, 0)} for d in door_names}
+    spell = {k: counters.get("judged-tag:spelling:" + k, 0) for k in SPELL_KINDS}
     out = {
         "sub_monitor_judged": sub,
+        # call doors: judged = refusals/returns that counted; vacuous = the door refuses all-dimensionless operands too (driven, not deciding)
+        "call_door_monitor": doors,
+        "call_doors_wholly_vacuous": sorted(d for d, v in doors.items() if v["judged"] == 0 and v["vacuous"] > 0),
+        "operand_spelling_monitor_judged": spell,
+        "tap_clip_ufunc_mixed_dispatches_seen": counters.get("tap:clip-mixed-dispatch", 0),
         "stale_unit_monitor_judged": stale,
         "stale_unit_monitor_eq_constant_answers": stale_eq,
         "stale_unit_cases": counters.get("stale-cases", 0),
@@ -1538,6 +1652,15 @@ def extra(tier, seed, results):
     for k, v in stale.items():
         if v == 0:
             raise core.Inconclusive(f"sub-monitor-{k}-evaluated-0-times")
+    for k, v in doors.items():
+        if v["judged"] + v["vacuous"] == 0:
+            raise core.Inconclusive(f"call-door-{k}-never-driven")
+    for fam_ in ("clip", "reduce-initial"):
+        if sum(v["judged"] for k, v in doors.items() if k.startswith(fam_)) == 0:
+            raise core.Inconclusive(f"call-door-monitor-{fam_}-judged-0-times")
+    for k, v in spell.items():
+        if v == 0:
+            raise core.Inconclusive(f"operand-spelling-{k}-judged-0-times")
     for k, v in stale_eq.items():
         if v == 0:
             raise core.Inconclusive(f"eq-exception-never-observed-in-{k}")
